@@ -69,24 +69,36 @@ def run(ctx: core.Ctx) -> int:
         samples.append({"valuation": v.tag, "rc": rc, "tu_lines": src.count("\n"), "diagnostics": diag[:3]})
     ctx.floor("WITNESS", len(results), 12 if ctx.tier == "quick" else 24, "witness translation units")
     # DELEGATE: evaluated body of the Reading::sensor_model override, per calibration flag
-    ev = minieval.MiniEval({"ast_fragments": w.frag, "cpp": w.cpp}, aliases={"fragments": "ast_fragments"})
     nd = 0
     for cal in (False, True):
+        ev = minieval.MiniEval({"ast_fragments": w.frag, "cpp": w.cpp}, aliases={"fragments": "ast_fragments"})
         gen = witness.FakeGenerator(witness.Valuation(True, cal))
-        body = ev.call_named("ast_fragments", "_Reading_sensor_model_body", gen)
-        args = ev.call_named("ast_fragments", "_Reading_sensor_model_args", gen)
-        base = ev.call_named("ast_fragments", "_StampedReadingBase_args", gen)
-        nd += 1
+        header = ev.call_named("cpp", "_header_body", generator=gen)
+        found = []
+
+        def walk(nodes, cls=None):
+            for nd_ in nodes or []:
+                if not isinstance(nd_, minieval.Node):
+                    continue
+                if nd_.kind == "FunctionDef" and nd_.name == "sensor_model" and cls is not None and "override" in str(nd_.modifier or ""):
+                    found.append((cls, nd_))
+                for f in ("body", "namespaces", "templated"):
+                    v = getattr(nd_, f, None)
+                    if isinstance(v, list) and nd_.kind != "FunctionDef":
+                        walk(v, nd_.name if nd_.kind == "ClassDef" else cls)
+                    elif isinstance(v, minieval.Node):
+                        walk([v], cls)
+        walk(header)
         want = "impl.sensor_model(state, calibration, *this)" if cal else "impl.sensor_model(state, *this)"
-        got = [b.value for b in body if b.kind == "Return"]
-        ctx.oblige("DELEGATE", f"{witness.FRAG}:_Reading_sensor_model_body [cal={cal}]", f"returns {got}", got == [want],
-                   file=witness.FRAG, func="_Reading_sensor_model_body", construct=f"delegate cal={cal}",
-                   msg=f"Reading::sensor_model returns {got}; required `{want}` (the update of this very reading on the given state)")
-        sig = [(a.type_, a.name) for a in args]
-        bsig = [(a.type_, a.name) for a in base]
-        ctx.oblige("DELEGATE", f"{witness.FRAG}:_Reading_sensor_model_args [cal={cal}]", f"override {sig} vs base {bsig}", sig == bsig,
-                   file=witness.FRAG, func="_Reading_sensor_model_args", construct=f"override signature cal={cal}",
-                   msg=f"Reading::sensor_model{sig} does not match the virtual StampedReadingBase::sensor_model{bsig}")
+        if len(found) != len(gen.reading_types()):
+            ctx.error(f"{witness.FRAG}: {len(found)} `sensor_model ... override` definitions in the derived header for {len(gen.reading_types())} reading types")
+        for cls_, fd in found:
+            nd += 1
+            got = [str(b.value) for b in (fd.body or []) if isinstance(b, minieval.Node) and b.kind == "Return"]
+            okd = len(fd.body or []) == 1 and [g.replace(" ", "") for g in got] == [want.replace(" ", "")]
+            ctx.oblige("DELEGATE", f"{witness.FRAG}:{cls_}::sensor_model [cal={cal}]", f"returns {got}", okd,
+                       file=witness.FRAG, func="Reading", construct=f"delegate cal={cal}",
+                       msg=f"{cls_}::sensor_model returns {got}; required `{want}` (the update of this very reading on the given state)")
     ctx.floor("DELEGATE", nd, 2, "Reading::sensor_model bodies")
     c10.mag_gen(ctx)
     # "returns what calling the prediction and update functions by hand in the same order returns": the C++ step and
